@@ -42,6 +42,8 @@ type Case struct {
 	// addresses most requests meet mailboxes that hold mail, several of them with the same ids
 	Pool []int `json:"pool,omitempty"`
 	Ops  []Op  `json:"ops"`
+	// Assembled: the world is what server.FullAssembly wires together (see hx.Cfg.Assembled)
+	Assembled bool `json:"assembled,omitempty"`
 }
 
 // addresses whose mailbox names exercise URL-significant characters
@@ -95,12 +97,13 @@ var prop = hx.Prop[Case]{
 			pool = rapid.SliceOfNDistinct(rapid.IntRange(0, len(addrs)-1), 2, 5, rapid.ID[int]).Draw(t, "pool")
 		}
 		return Case{
-			Pool:     pool,
-			Backend:  rapid.SampledFrom([]string{"mem", "file"}).Draw(t, "backend"),
-			Naming:   rapid.SampledFrom([]string{"local", "local", "full"}).Draw(t, "naming"),
-			BasePath: rapid.SampledFrom([]string{"", "", "/p", "/a/b"}).Draw(t, "basepath"),
-			Slash:    rapid.IntRange(0, 2).Draw(t, "slash") == 0,
-			Ops:      rapid.SliceOfN(opGen, 5, 40).Draw(t, "ops"),
+			Assembled: rapid.IntRange(0, 3).Draw(t, "assembled") == 0,
+			Pool:      pool,
+			Backend:   rapid.SampledFrom([]string{"mem", "file"}).Draw(t, "backend"),
+			Naming:    rapid.SampledFrom([]string{"local", "local", "full"}).Draw(t, "naming"),
+			BasePath:  rapid.SampledFrom([]string{"", "", "/p", "/a/b"}).Draw(t, "basepath"),
+			Slash:     rapid.IntRange(0, 2).Draw(t, "slash") == 0,
+			Ops:       rapid.SliceOfN(opGen, 5, 40).Draw(t, "ops"),
 		}
 	},
 	Run: run,
@@ -134,7 +137,10 @@ var tokenRe = regexp.MustCompile(`zqd[0-9]+qz`)
 func run(c Case) *hx.Outcome {
 	o := &hx.Outcome{}
 	cfg := hx.DefaultCfg()
-	cfg.Backend, cfg.Naming, cfg.BasePath = c.Backend, c.Naming, c.BasePath
+	cfg.Backend, cfg.Naming, cfg.BasePath, cfg.Assembled = c.Backend, c.Naming, c.BasePath, c.Assembled
+	if c.Assembled {
+		o.Class("world wired by server.FullAssembly")
+	}
 	w, err := hx.NewWorld(cfg)
 	if err != nil {
 		o.Failf(pid+":harness", "world: %v", err)
